@@ -24,15 +24,16 @@ import (
 const modPath = "oras.land/oras-go/v2"
 
 var importMap = map[string]string{
-	"os":                           modPath + "/zsim/simos",
-	"sync":                         modPath + "/zsim/simsync",
-	"hash/maphash":                 modPath + "/zsim/simhash",
-	"golang.org/x/sync/errgroup":   modPath + "/zsim/xsync/errgroup",
-	"golang.org/x/sync/semaphore":  modPath + "/zsim/xsync/semaphore",
+	"os":                          modPath + "/zsim/simos",
+	"sync":                        modPath + "/zsim/simsync",
+	"hash/maphash":                modPath + "/zsim/simhash",
+	"sync/atomic":                 modPath + "/zsim/simatomic",
+	"golang.org/x/sync/errgroup":  modPath + "/zsim/xsync/errgroup",
+	"golang.org/x/sync/semaphore": modPath + "/zsim/xsync/semaphore",
 }
 
 var importName = map[string]string{
-	"os": "os", "sync": "sync", "hash/maphash": "maphash",
+	"os": "os", "sync": "sync", "hash/maphash": "maphash", "sync/atomic": "atomic",
 	"golang.org/x/sync/errgroup": "errgroup", "golang.org/x/sync/semaphore": "semaphore",
 }
 
